@@ -9,7 +9,7 @@
    returned value of the real code on every accepted scalar/point/encoding. *)
 From Coq Require Import ZArith List String.
 From Verif Require Import Model.Effects Proofs.EffectsProofs Proofs.EffectsDocumented Proofs.EffectsVerdictRecv.
-From Verif Require Gen.EffectsIR.
+From Verif Require Gen.EffectsIR Gen.BigIntRoutines Proofs.BigIntEqRecv Model.BabyJub Model.Eddsa Model.Outcome.
 Import ListNotations.
 Local Open Scope string_scope.
 
@@ -31,5 +31,44 @@ Theorem C19_receiver_is_result : forall gl f, In f c19_methods ->
        exists x, In (EvF x [RParam 0]) tr /\ (x = fld \/ x = "*")).
 Proof. exact c19_receiver. Qed.
 
+(* VALUE equality, on the value-level Gallina that tools/bigintgen regenerates from the Go
+   source (alias-tracking symbolic execution): the FINAL receiver equals the returned value
+   = the model's result, also when the argument is the receiver itself; on a failed
+   Point.Decompress the receiver is unchanged. *)
+Theorem C19_mul_receiver_value : forall p0 s q,
+  BigIntRoutines.babyjub_Point_Mul__recv BigIntEqRecv.babyjub_mulLoop p0 s q = BabyJub.Mul s q /\
+  BigIntRoutines.babyjub_Point_Mul BigIntEqRecv.babyjub_mulLoop s q = BabyJub.Mul s q /\
+  BigIntRoutines.babyjub_Point_Mul__recv_aliased BigIntEqRecv.babyjub_mulLoop p0 s = BabyJub.Mul s p0.
+Proof.
+  intros. exact (conj (BigIntEqRecv.gen_babyjub_Point_Mul__recv_eq p0 s q)
+                (conj (BigIntEqRecv.gen_babyjub_Point_Mul_eq s q) (BigIntEqRecv.gen_babyjub_Point_Mul__recv_aliased_eq p0 s))).
+Qed.
+
+Theorem C19_set_receiver_value : forall p0 c,
+  BigIntRoutines.babyjub_Point_Set__recv p0 c = c /\ BigIntRoutines.babyjub_Point_Set c = c /\
+  BigIntRoutines.babyjub_Point_Set__recv_aliased p0 = p0.
+Proof.
+  intros. exact (conj (BigIntEqRecv.gen_babyjub_Point_Set__recv_eq p0 c)
+                (conj (BigIntEqRecv.gen_babyjub_Point_Set_eq c) (BigIntEqRecv.gen_babyjub_Point_Set__recv_aliased_eq p0))).
+Qed.
+
+Theorem C19_decompress_receiver_value : forall p0 leBuf,
+  match BabyJub.Decompress leBuf with
+  | Outcome.Ok P => BigIntRoutines.babyjub_Point_Decompress__recv p0 leBuf = Some P
+  | Outcome.Err => BigIntRoutines.babyjub_Point_Decompress__recv p0 leBuf = Some p0
+  | Outcome.Panic => True
+  end.
+Proof. exact BigIntEqRecv.gen_babyjub_Point_Decompress__recv_eq. Qed.
+
+Theorem C19_sig_decompress_receiver_value : forall s0 buf, List.length buf = 64%nat ->
+  match Eddsa.SigDecompress buf with
+  | Outcome.Ok sg => BigIntRoutines.babyjub_Signature_Decompress__recv s0 buf = Some sg
+  | Outcome.Err => BigIntRoutines.babyjub_Signature_Decompress__recv s0 buf = None
+  | Outcome.Panic => True
+  end.
+Proof. exact BigIntEqRecv.gen_babyjub_Signature_Decompress__recv_eq. Qed.
+
+Print Assumptions C19_mul_receiver_value.
+Print Assumptions C19_decompress_receiver_value.
 Print Assumptions C19_verdict.
 Print Assumptions C19_receiver_is_result.
